@@ -254,13 +254,21 @@ const (
 var c13FaultName = [c13NFaults]string{"sentinel", "sentinel+history", "wraps-notfound-but-NotFound-false"}
 
 const (
-	c13DSSentinel = iota // own sentinel error, NotFound by ==
-	c13DSTyped           // own typed error, wrapped, NotFound by errors.As
-	c13DSLibMap          // the library's own map datasource behind the recording wrapper
+	c13DSSentinel   = iota // own sentinel error, NotFound by ==
+	c13DSTyped             // own typed error, wrapped, NotFound by errors.As
+	c13DSLibMap            // the library's own map datasource behind the recording wrapper
+	c13DSFromOSM           // histories handed over as one *osm.OSM, datasource built by (*osm.OSM).HistoryDatasource()
+	c13DSFromChange        // histories spread over the sections of an *osm.Change, built by (*osm.Change).HistoryDatasource()
 	c13NModes
 )
 
-var c13ModeName = [c13NModes]string{"own-sentinel", "own-typed-wrapped", "osm.HistoryDatasource"}
+var c13ModeName = [c13NModes]string{"own-sentinel", "own-typed-wrapped", "osm.HistoryDatasource{maps}", "(*osm.OSM).HistoryDatasource()", "(*osm.Change).HistoryDatasource()"}
+
+// c13Ref names entry idx of the history of a feature.
+type c13Ref struct {
+	key c13Key
+	idx int
+}
 
 type c13Model struct {
 	items  []c13Item // document order: section, then kind, then position
@@ -269,6 +277,101 @@ type c13Model struct {
 	opt    int
 	mode   int
 	fault  map[c13Key]int // feature -> fault flavour
+	// src is, for the library-built datasources, the order in which the history entries stand
+	// in the source object: [section][kind]; an *osm.OSM source uses section 0 only. The entries
+	// of one feature appear in history order. nil = grouped by feature.
+	src *[3][3][]c13Ref
+}
+
+func (m *c13Model) built() bool { return m.mode == c13DSFromOSM || m.mode == c13DSFromChange }
+
+// normalize makes the model say what a library-built datasource can express: no
+// present-but-empty history; for a change as source the visible versions come first (create
+// and modify sections are added before the delete section and marked accordingly). Idempotent.
+func (m *c13Model) normalize() {
+	if !m.built() {
+		return
+	}
+	for _, h := range m.hist {
+		if h.present && len(h.entries) == 0 {
+			h.present = false
+		}
+		if m.mode == c13DSFromChange {
+			sort.SliceStable(h.entries, func(i, j int) bool { return h.entries[i].vis() && !h.entries[j].vis() })
+		}
+	}
+}
+
+func (m *c13Model) layout() [3][3][]c13Ref {
+	if m.src != nil {
+		return *m.src
+	}
+	var l [3][3][]c13Ref
+	for _, k := range m.sortedKeys() {
+		h := m.hist[k]
+		if !h.present {
+			continue
+		}
+		for i, e := range h.entries {
+			sec := 0
+			if m.mode == c13DSFromChange && !e.vis() {
+				sec = c13Delete
+			}
+			l[sec][k.kind] = append(l[sec][k.kind], c13Ref{k, i})
+		}
+	}
+	return l
+}
+
+// source builds the fresh history source object of a library-built datasource.
+func (m *c13Model) source() (*osm.OSM, *osm.Change) {
+	l := m.layout()
+	mk := func(sec int) *osm.OSM {
+		o := &osm.OSM{}
+		n := 0
+		for kind := 0; kind < 3; kind++ {
+			for _, ref := range l[sec][kind] {
+				e := m.hist[ref.key].entries[ref.idx].clone()
+				if m.mode == c13DSFromChange && e.vis() != (sec != c13Delete) {
+					panic("c13: model inconsistent: visible flag does not fit the section of the history source")
+				}
+				n++
+				switch kind {
+				case c13Node:
+					o.Nodes = append(o.Nodes, e.n)
+				case c13Way:
+					o.Ways = append(o.Ways, e.w)
+				default:
+					o.Relations = append(o.Relations, e.r)
+				}
+			}
+		}
+		if n == 0 && m.mode == c13DSFromChange {
+			return nil
+		}
+		return o
+	}
+	if m.mode == c13DSFromOSM {
+		return mk(0), nil
+	}
+	return nil, &osm.Change{Create: mk(0), Modify: mk(1), Delete: mk(2)}
+}
+
+func (m *c13Model) describeSource() any {
+	l := m.layout()
+	d := map[string][]string{}
+	for sec := 0; sec < 3; sec++ {
+		name := "osm"
+		if m.mode == c13DSFromChange {
+			name = c13SecName[sec]
+		}
+		for kind := 0; kind < 3; kind++ {
+			for _, ref := range l[sec][kind] {
+				d[name] = append(d[name], fmt.Sprintf("%s:v%d", ref.key, m.hist[ref.key].entries[ref.idx].ver()))
+			}
+		}
+	}
+	return d
 }
 
 func (m *c13Model) ignore() bool { return m.opt == c13OptIgnore || m.opt == c13OptThresholdIgnore }
@@ -363,6 +466,9 @@ func (m *c13Model) describe() map[string]any {
 		hs[k.String()] = vs
 	}
 	d["histories_in_datasource_order"] = hs
+	if m.built() {
+		d["history_source_object"] = m.describeSource()
+	}
 	if len(m.fault) > 0 {
 		fs := map[string]string{}
 		for k, f := range m.fault {
@@ -412,9 +518,40 @@ type c13DS struct {
 	injected  *c13Injected
 	calls     []string
 	nfCalls   int
+	// library-built datasources: the object the caller handed to HistoryDatasource()
+	srcOSM    *osm.OSM
+	srcChange *osm.Change
 }
 
-func c13NewDS(m *c13Model) *c13DS {
+// srcDump is the canonical text of the caller's history source object.
+func (ds *c13DS) srcDump() string {
+	if ds.srcChange != nil {
+		return eq.Dump(ds.srcChange)
+	}
+	return eq.Dump(ds.srcOSM)
+}
+
+// c13NewDS builds the datasource of a model; reuse != nil: build it once more from the very
+// source object a previous execution handed to the library.
+func c13NewDS(m *c13Model, reuse *c13DS) *c13DS {
+	if m.built() {
+		ds := &c13DS{mode: m.mode, fault: map[osm.FeatureID]int{}, injected: &c13Injected{what: "connection reset"}}
+		if reuse != nil {
+			ds.srcOSM, ds.srcChange = reuse.srcOSM, reuse.srcChange
+		} else {
+			ds.srcOSM, ds.srcChange = m.source()
+		}
+		if ds.srcChange != nil {
+			ds.lib = ds.srcChange.HistoryDatasource()
+		} else {
+			ds.lib = ds.srcOSM.HistoryDatasource()
+		}
+		ds.nodes, ds.ways, ds.relations = ds.lib.Nodes, ds.lib.Ways, ds.lib.Relations
+		for k, f := range m.fault {
+			ds.fault[c13FID(k.kind, k.id)] = f
+		}
+		return ds
+	}
 	ds := &c13DS{mode: m.mode, nodes: map[osm.NodeID]osm.Nodes{}, ways: map[osm.WayID]osm.Ways{}, relations: map[osm.RelationID]osm.Relations{},
 		fault: map[osm.FeatureID]int{}, injected: &c13Injected{what: "connection reset"}}
 	for k, h := range m.hist {
@@ -455,7 +592,7 @@ func (ds *c13DS) notFoundErr(id osm.FeatureID) error {
 	switch ds.mode {
 	case c13DSTyped:
 		return fmt.Errorf("lookup %v: %w", id, &c13NotFound{id: id})
-	case c13DSLibMap:
+	case c13DSLibMap, c13DSFromOSM, c13DSFromChange:
 		// obtain the library datasource's own not-found value through its public API
 		_, err := (&osm.HistoryDatasource{}).NodeHistory(context.Background(), 0)
 		return err
@@ -540,7 +677,7 @@ func (ds *c13DS) NotFound(err error) bool {
 	case c13DSTyped:
 		var nf *c13NotFound
 		return errors.As(err, &nf)
-	case c13DSLibMap:
+	case c13DSLibMap, c13DSFromOSM, c13DSFromChange:
 		return ds.lib.NotFound(err)
 	}
 	return err == errC13NotFound
@@ -559,14 +696,17 @@ type c13Out struct {
 	pan    string
 }
 
-func c13Run(m *c13Model) (out c13Out) {
+func c13Run(m *c13Model) c13Out { return c13RunReuse(m, nil) }
+
+func c13RunReuse(m *c13Model, reuse *c13DS) (out c13Out) {
+	m.normalize()
 	out.change = m.change()
-	out.ds = c13NewDS(m)
 	defer func() {
 		if x := recover(); x != nil {
 			out.pan = fmt.Sprintf("%v\n%s", x, debug.Stack())
 		}
 	}()
+	out.ds = c13NewDS(m, reuse)
 	out.diff, out.err = annotate.Change(context.Background(), out.change, out.ds, m.options()...)
 	return out
 }
@@ -1044,6 +1184,20 @@ func c13Judge(res *fw.Result, m *c13Model, c fw.Case, record bool) {
 	if a, b := out.canon(), out2.canon(); a != b {
 		fs = append(fs, c13Finding{"determinism", -1, "two executions on equal inputs differ: " + eq.Diff(a, b)})
 	}
+	// library-built datasource: the caller's history object must still say the same afterwards
+	srcModified := false
+	if m.built() && out.ds != nil {
+		po, pc := m.source()
+		pristine := (&c13DS{srcOSM: po, srcChange: pc}).srcDump()
+		if srcModified = pristine != out.ds.srcDump(); srcModified {
+			res.Add("history_source_objects_modified", 1)
+		}
+		out3 := c13RunReuse(m, out.ds)
+		if a, b := out.canon(), out3.canon(); a != b {
+			fs = append(fs, c13Finding{"history-source-reuse", -1, "a datasource built a second time from the same history object gives another result (history object modified: " + fmt.Sprint(srcModified) + "): " + eq.Diff(a, b)})
+		}
+		res.Add("library_built_datasources", 1)
+	}
 
 	// evidence
 	exps := c13Expect(m)
@@ -1103,6 +1257,10 @@ func c13Judge(res *fw.Result, m *c13Model, c fw.Case, record bool) {
 				detail["minimal_observed"] = c13Run(s).canon()
 			} else {
 				cls = "in-context" // fails only together with the other elements of the change
+				if m.built() {
+					cls = "in-context-built-datasource" // ... or with the other histories of the source object
+					detail["history_source_object_modified"] = srcModified
+				}
 			}
 			key += "/" + c13KindName[it.el.kind] + "/" + cls
 		}
@@ -1138,6 +1296,14 @@ func c13Judge(res *fw.Result, m *c13Model, c fw.Case, record bool) {
 		d["datasource_calls"] = out.ds.calls
 		res.Sample = d
 	}
+}
+
+func c13Bits(x int) int {
+	n := 0
+	for ; x > 0; x >>= 1 {
+		n += x & 1
+	}
+	return n
 }
 
 func c13DumpNoVisible(ch *osm.Change) string {
@@ -1282,6 +1448,10 @@ func c13GenModel(r *gen.R) *c13Model {
 			}
 		}
 	}
+	m.normalize()
+	if m.built() {
+		m.src = c13GenLayout(r, m)
+	}
 	// cells: sometimes a single cell, sometimes all nine, mostly a random mix
 	var want [3][3]int
 	switch x := r.Intn(10); {
@@ -1325,6 +1495,100 @@ func c13GenModel(r *gen.R) *c13Model {
 		m.fault[it.el.key()] = r.Intn(c13NFaults)
 	}
 	return m
+}
+
+// c13GenLayout decides where the history entries stand in the source object of a
+// library-built datasource: grouped by feature, randomly interleaved, round robin, or every
+// history cut into two runs; for a change as source also which visible versions go to the
+// create and which to the modify section (invisible ones stand in the delete section).
+func c13GenLayout(r *gen.R, m *c13Model) *[3][3][]c13Ref {
+	var per [3][3]map[c13Key][]c13Ref // [section][kind] feature -> refs in history order
+	var keys [3][3][]c13Key
+	for _, k := range m.sortedKeys() {
+		h := m.hist[k]
+		if !h.present {
+			continue
+		}
+		nv := 0
+		for _, e := range h.entries {
+			if e.vis() {
+				nv++
+			}
+		}
+		split := r.Range(0, nv)
+		for i, e := range h.entries {
+			sec := 0
+			if m.mode == c13DSFromChange {
+				switch {
+				case !e.vis():
+					sec = c13Delete
+				case i >= split:
+					sec = c13Modify
+				}
+			}
+			if per[sec][k.kind] == nil {
+				per[sec][k.kind] = map[c13Key][]c13Ref{}
+			}
+			if len(per[sec][k.kind][k]) == 0 {
+				keys[sec][k.kind] = append(keys[sec][k.kind], k)
+			}
+			per[sec][k.kind][k] = append(per[sec][k.kind][k], c13Ref{k, i})
+		}
+	}
+	var l [3][3][]c13Ref
+	style := r.Intn(4)
+	for sec := 0; sec < 3; sec++ {
+		for kind := 0; kind < 3; kind++ {
+			ks := keys[sec][kind]
+			r.Shuffle(len(ks), func(i, j int) { ks[i], ks[j] = ks[j], ks[i] })
+			lists := make([][]c13Ref, len(ks))
+			for i, k := range ks {
+				lists[i] = per[sec][kind][k]
+			}
+			var out []c13Ref
+			switch style {
+			case 0: // grouped
+				for _, li := range lists {
+					out = append(out, li...)
+				}
+			case 1: // random interleaving
+				for {
+					var live []int
+					for i, li := range lists {
+						if len(li) > 0 {
+							live = append(live, i)
+						}
+					}
+					if len(live) == 0 {
+						break
+					}
+					i := live[r.Intn(len(live))]
+					out = append(out, lists[i][0])
+					lists[i] = lists[i][1:]
+				}
+			case 2: // round robin
+				for more := true; more; {
+					more = false
+					for i := range lists {
+						if len(lists[i]) > 0 {
+							out = append(out, lists[i][0])
+							lists[i] = lists[i][1:]
+							more = true
+						}
+					}
+				}
+			default: // two runs per feature
+				for _, li := range lists {
+					out = append(out, li[:(len(li)+1)/2]...)
+				}
+				for _, li := range lists {
+					out = append(out, li[(len(li)+1)/2:]...)
+				}
+			}
+			l[sec][kind] = out
+		}
+	}
+	return &l
 }
 
 // ---------------------------------------------------------------------------------------
@@ -1388,6 +1652,74 @@ func c13Exec(c fw.Case) *fw.Result {
 		res.Add("enumerated_histories", int64(n))
 		res.Sample = map[string]any{"section": c13SecName[sec], "kind": c13KindName[kind], "ignore_missing": ign,
 			"element_versions": "1..6", "history_versions": "every subset of 1..6; ascending, descending, 2 shuffles, doubled+shuffled; empty; not found", "histories": n}
+	case "enum-built":
+		// seed-independent: histories A = v1,v2,v3 and B = v1,v2 of one kind handed to the library as
+		// an *osm.OSM in every interleaving, or as an *osm.Change in every interleaving and every
+		// admissible spread over the create/modify/delete sections; both features are then changed.
+		kind, mode := int(c.Int("kind")), int(c.Int("mode"))
+		r := gen.New(c.Seed, "c13built")
+		ka, kb := c13Key{kind, 7}, c13Key{kind, 8}
+		n := 0
+		for merge := 0; merge < 32; merge++ { // bit i set: position i holds an entry of A
+			if c13Bits(merge) != 3 {
+				continue
+			}
+			nAssign := 1
+			if mode == c13DSFromChange {
+				nAssign = 243 // 3^5 section assignments, inadmissible ones skipped
+			}
+			for assign := 0; assign < nAssign; assign++ {
+				var secs [5]int
+				ok := true
+				lastA, lastB := 0, 0
+				for pos, a := 0, assign; pos < 5; pos, a = pos+1, a/3 {
+					secs[pos] = a % 3
+					last := &lastB
+					if merge&(1<<uint(pos)) != 0 {
+						last = &lastA
+					}
+					if secs[pos] < *last { // a feature's entries reach the datasource section by section
+						ok = false
+					}
+					*last = secs[pos]
+				}
+				if !ok {
+					continue
+				}
+				m := &c13Model{hist: map[c13Key]*c13Hist{ka: {present: true}, kb: {present: true}}, fault: map[c13Key]int{},
+					secNil: [3]bool{true, true, true}, mode: mode, opt: []int{c13OptNone, c13OptIgnore}[n%2]}
+				var l [3][3][]c13Ref
+				for pos := 0; pos < 5; pos++ {
+					k := kb
+					if merge&(1<<uint(pos)) != 0 {
+						k = ka
+					}
+					h := m.hist[k]
+					e := c13MakeEl(r, kind, k.id, len(h.entries)+1, false).withVis(mode != c13DSFromChange || secs[pos] != c13Delete)
+					if mode != c13DSFromChange && r.Bool() {
+						e = e.withVis(false)
+					}
+					l[secs[pos]][kind] = append(l[secs[pos]][kind], c13Ref{k, len(h.entries)})
+					h.entries = append(h.entries, e)
+				}
+				m.src = &l
+				va, vb := 4, 3
+				if n%3 == 2 {
+					va, vb = 3, 2 // own version present in the history
+				}
+				sa, sb := c13Modify, c13Delete
+				if n%4 >= 2 {
+					sa, sb = c13Delete, c13Modify
+				}
+				m.items = []c13Item{{sa, c13MakeEl(r, kind, ka.id, va, false)}, {sb, c13MakeEl(r, kind, kb.id, vb, false)}}
+				sort.SliceStable(m.items, func(i, j int) bool { return m.items[i].sec < m.items[j].sec })
+				c13Judge(res, m, c, false)
+				n++
+			}
+		}
+		res.Add("enumerated_source_layouts", int64(n))
+		res.Sample = map[string]any{"kind": c13KindName[kind], "datasource": c13ModeName[mode], "layouts": n,
+			"histories": "A=v1,v2,v3 B=v1,v2 in every interleaving (and every admissible section spread for a change)"}
 	case "grey":
 		// versions <= 0 are outside what OSM calls a version; executed, never asserted
 		r := gen.New(c.Seed, "c13grey")
@@ -1418,8 +1750,8 @@ func init() {
 		Level: "exploration",
 		Rule: "random (osmChange, histories, option, datasource) triples from a harness-side model: 0-4 elements in each of the nine (create|modify|delete)x(node|way|relation) cells over small id pools " +
 			"(same feature in several sections), histories sorted/reversed/shuffled with version gaps, later versions, duplicates of the element's own version, duplicated predecessors, large versions, empty, or not found; " +
-			"five option sets; three datasource behaviours (own sentinel, own wrapped typed error, the library's map datasource) behind a call-recording wrapper that can inject a non-not-found error (three flavours); " +
-			"plus a seed-independent small-scope enumeration: one modified/deleted element of version 1..6 against every subset of history versions 1..6 in five orders, empty and missing, per kind, section and option. " +
+			"five option sets; five datasource behaviours behind a call-recording wrapper (own sentinel, own wrapped typed error, the library's map datasource filled directly, and histories handed over as an *osm.OSM or spread over the sections of an *osm.Change and turned into a datasource by the library's own HistoryDatasource() methods - grouped, interleaved, round-robin or two-run layouts) that can inject a non-not-found error (three flavours); " +
+			"plus a seed-independent small-scope enumeration: one modified/deleted element of version 1..6 against every subset of history versions 1..6 in five orders, empty and missing, per kind, section and option, and two histories handed to HistoryDatasource() in every interleaving and every admissible section spread. " +
 			"The expectation comes from an independent reference (sort by version, first below). One evaluation per changed element with signature (section, kind, history features, strict|ignore, outcome) " +
 			"and one per change with signature (cell mask, option set, datasource, error class); distinct_nontrivial counts distinct signatures.",
 		Assumptions: []string{
@@ -1431,6 +1763,7 @@ func init() {
 			"create actions must carry exactly one element in Action.OSM and none in Old/New, modify/delete exactly one in Old and one in New and none in Action.OSM (diff.go documents this population); nil and empty are treated alike; Diff.Changesets and the attributes of the wrapping *osm.OSM are not asserted",
 			"versions <= 0, negative ids, nil elements, a cancelled context and IgnoreInconsistency are outside the statement: versions <= 0 are executed without assertion, the others are not generated",
 			"a panic of annotate.Change on such inputs is reported as a violation (no diff was yielded)",
+			"for datasources built by the library from an *osm.OSM / *osm.Change: the versions of a feature are returned in source order (creates, modifies, deletes for a change), create/modify entries are visible and delete entries are not (the model only places them so); the source object being modified is an observation, asserted only through its effect: building the datasource a second time from the same object must give the same diff",
 		},
 		Cases: func(tier string, seed uint64) []fw.Case {
 			n := 1000
@@ -1445,6 +1778,11 @@ func init() {
 						cs = append(cs, fw.Case{Kind: "enum", Seed: gen.Sub(13, "c13enum", sec*6+kind*2+ign),
 							P: map[string]int64{"section": int64(sec), "kind": int64(kind), "ignore": int64(ign)}})
 					}
+				}
+			}
+			for kind := 0; kind < 3; kind++ {
+				for _, mode := range []int{c13DSFromOSM, c13DSFromChange} {
+					cs = append(cs, fw.Case{Kind: "enum-built", Seed: gen.Sub(13, "c13built", kind*2+mode), P: map[string]int64{"kind": int64(kind), "mode": int64(mode)}})
 				}
 			}
 			for i := 0; i < n; i++ {
